@@ -158,6 +158,15 @@ def replay(hist, keep, zk, base, ties=()):
       except Exception as exc:
         obs.append(type(exc).__name__)
       exp.append(None)
+    elif op[0] == "setkeep":
+      # keep is a public attribute: changing it while the mixer plays changes whether it ends
+      m.keep = bool(op[1])
+      try:
+        sm.keep = bool(op[1])
+        obs.append(None)
+      except Exception as exc:
+        obs.append(type(exc).__name__)
+      exp.append(None)
     elif op[0] == "addneg":
       try:
         sm.add(num(op[1]), [5])
@@ -199,6 +208,8 @@ LENS = [0, 1, 3]
 
 def bfs_ops(m, max_events):
   ops = [["next"], ["addneg", "-1"], ["addneg", "-1/4"]]
+  if not m.ended:
+    ops.append(["setkeep", not m.keep])
   if len(m.ev) < max_events and m.live() < 3 and not m.ended:
     for d in BFS_DELTAS:
       for ln in LENS:
@@ -218,7 +229,7 @@ def run_bfs(case):
     return bad("mixer:history", "history disagrees with the statement-level model",
                {"step": k, "op": hist[k], "value": exp[k]},
                {"value": obs[k], "history": hist})
-  succ = {("self:",) + (keep, zk) + m0.canon(): [cfg, hist]}
+  succ = {("self:",) + (m0.keep, zk) + m0.canon(): [cfg, hist]}
   n = changed = 0
   first_bad = None
   outcomes = set()
@@ -236,8 +247,8 @@ def run_bfs(case):
                         {"step": kk, "op": h2[kk], "value": exp[kk]},
                         {"value": obs[kk], "history": h2})
       continue
-    c = (keep, zk) + m.canon()
-    if c != (keep, zk) + m0.canon():
+    c = (m.keep, zk) + m.canon()
+    if c != (m0.keep, zk) + m0.canon():
       changed += 1
     if m.ended and m0.ended:
       continue
@@ -411,13 +422,22 @@ def gen_control(run):
         continue
       for h in itertools.product("abn", repeat=n):
         yield (route, "".join(h))
+  # any object is a legal value, None and other falsy ones included (z = None, f = 0.0, e = ())
+  for route in ("direct", "iter-once"):
+    for n in range(1, 7):
+      for h in itertools.product("anzfe", repeat=n):
+        if any(c in "zfe" for c in h) and "n" in h:
+          yield (route, "".join(h))
 
 
 def run_control(case):
   route, h = case
-  vals = {"a": 7, "b": -2}
+  vals = {"a": 7, "b": -2, "z": None, "f": 0.0, "e": ()}
   cs = ControlStream(5)
   cur = 5
+  if h[:1] in ("z", "f", "e"):
+    cs = ControlStream(vals[h[0]])         # falsy / None already at construction
+    cur = vals[h[0]]
   if route == "direct":
     src = cs
     f = lambda v: v
@@ -454,7 +474,7 @@ def run_control(case):
         exp = f(cur)
       k += 1
       reads += 1
-      if got != exp:
+      if got != exp or type(got) is not type(exp):
         return bad("control:read", "ControlStream did not yield the value most recently assigned",
                    {"step": i, "value": exp}, {"value": got, "history": h})
     else:
